@@ -5,7 +5,7 @@ patch=$(realpath "$1"); shift
 cd /repo || exit 2
 if ! git diff --quiet; then echo "/repo working tree is dirty, refusing"; exit 2; fi
 git apply "$patch" || { echo "patch does not apply"; exit 2; }
-trap 'git -C /repo checkout -- . ' EXIT
+trap "git -C /repo checkout -- ." EXIT INT TERM
 rc=0
 if [ -n "$BASELINE" ]; then /verif/tools/baseline.py /repo || echo "NOTE: baseline tests FAIL with this patch"; fi
 for id in "$@"; do
